@@ -342,5 +342,6 @@ pub fn property() -> Property {
         ],
         families,
         prelude: None,
+        epilogue: None,
     }
 }
